@@ -1,12 +1,15 @@
 // c11: interop of interpreted functions / types with compiled code.
 //
 // (1) direct oracle: PRNG-generated programs route interpreted closures and interpreted types (converted to compiled
-//     interfaces: sort.Interface, heap.Interface, io.Reader, io.Writer, fmt.Stringer, error) through compiled standard
-//     library entry points and compiled helpers, including callbacks invoked from goroutines the interpreter did not start
-//     (time.AfterFunc, a compiled parallelMap); every program is also compiled with `go build` (one batched module,
-//     go 1.18) and the printed results are compared.
+//
+//	interfaces: sort.Interface, heap.Interface, io.Reader, io.Writer, fmt.Stringer, error) through compiled standard
+//	library entry points and compiled helpers, including callbacks invoked from goroutines the interpreter did not start
+//	(time.AfterFunc, a compiled parallelMap); every program is also compiled with `go build` (one batched module,
+//	go 1.18) and the printed results are compared.
+//
 // (2) correspondence for coq/C11/Model.v (fill): interpreted types are converted to compiled interfaces and every field
-//     of the resulting proxy struct is called to see WHICH interpreted method was stored there; cases*.v.
+//
+//	of the resulting proxy struct is called to see WHICH interpreted method was stored there; cases*.v.
 package main
 
 import (
@@ -158,7 +161,7 @@ func (g *gen) sortSlice() prog {
 func (g *gen) sortInterface() prog {
 	k := g.k
 	structy := g.r.Bool()
-	ptrVar := g.r.Bool()     // the variable holds *T (value-receiver methods through a pointer: class of fixed finding F1)
+	ptrVar := g.r.Bool()        // the variable holds *T (value-receiver methods through a pointer: class of fixed finding F1)
 	ptrRecv := g.r.Chance(1, 3) // pointer receivers (then the variable must be a pointer)
 	recv, acc := "b By_"+k, "b"
 	var decl string
